@@ -34,7 +34,7 @@ class Bad:
 
 def kinds_for(schema, fdef, natural=None):
     """applicable failure kinds for a field of this declared type -> list of (kind label, fault, value)"""
-    out = [("raise", "raise", None), ("raise_te", "raise_te", None), ("raise_te_ctor", "raise_te_ctor", None),
+    out = [("raise", "raise", None), ("raise_te", "raise_te", None), ("raise_te_ctor", "raise_te_ctor", None), ("raise_multi", "raise_multi", None),
            ("return_exc", "return_exc", None), ("null", "none", None)]
     t = fdef.type
     core = t[1] if t[0] == "nn" else t
